@@ -559,6 +559,19 @@ def oracle(ctx, deep=False, cal=False, only=None):
     return res
 
 
+_CONT_TYPES = [set, tuple, lambda xs: np.array(list(xs)), frozenset, list]
+_CONT_CALLS = [0]
+
+
+def _cont(xs):
+    """The segment / swapped-normals index collections are handed to function_space as a set, a tuple, a NumPy array, a
+    frozenset and a list in turn (all of them support `index in collection`, which is what the documented behaviour
+    rests on; the library's own multitrace code passes sets).  Seeded change C02-c vectorised the lookup with numpy.isin,
+    which silently matches nothing for a set."""
+    _CONT_CALLS[0] += 1
+    return _CONT_TYPES[(_CONT_CALLS[0] - 1) % len(_CONT_TYPES)](xs)
+
+
 def _build_variants(api, grid, D, labels, swap_set, sig, variants, res, mesh):
     """name -> function(evaluator, fun, res) -> values of the (signed) sum of potentials at the points."""
     fs = api.function_space
@@ -578,8 +591,8 @@ def _build_variants(api, grid, D, labels, swap_set, sig, variants, res, mesh):
         out["whole-dp1"] = lambda ev, f, res: (ev.slp(D0, dp0_coeffs(D0, grid, f["pe"]))
                                                - ev.dlp(D1, p1_coeffs(D1, grid, f["uv"])))
     if "seg-trunc" in variants:
-        sp = [(fs(grid, "P", 1, segments=[l_], include_boundary_dofs=True, truncate_at_segment_edge=True),
-               fs(grid, "DP", 0, segments=[l_])) for l_ in labels]
+        sp = [(fs(grid, "P", 1, segments=_cont([l_]), include_boundary_dofs=True, truncate_at_segment_edge=True),
+               fs(grid, "DP", 0, segments=_cont([l_]))) for l_ in labels]
 
         def f_trunc(ev, f, res):
             return sum(ev.slp(d0, dp0_coeffs(d0, grid, f["pe"])) - ev.dlp(p1, p1_coeffs(p1, grid, f["uv"]))
@@ -587,10 +600,10 @@ def _build_variants(api, grid, D, labels, swap_set, sig, variants, res, mesh):
         out["seg-trunc"] = f_trunc
     if "seg-compl" in variants:
         A_, B_ = list(labels[:1]), list(labels[1:])
-        pa = fs(grid, "P", 1, segments=A_, include_boundary_dofs=True, truncate_at_segment_edge=False)
+        pa = fs(grid, "P", 1, segments=_cont(A_), include_boundary_dofs=True, truncate_at_segment_edge=False)
         pb = None
         try:
-            pb = fs(grid, "P", 1, segments=B_, include_boundary_dofs=False)
+            pb = fs(grid, "P", 1, segments=_cont(B_), include_boundary_dofs=False)
             if pb.global_dof_count == 0:
                 pb = None
         except Exception:  # an empty P1 space cannot be built: then the first piece already carries every vertex
@@ -608,7 +621,7 @@ def _build_variants(api, grid, D, labels, swap_set, sig, variants, res, mesh):
                         seen.add(int(grid.elements[i, e]))
             carried[list(seen)] += 1
         if np.all(carried == 1):
-            da, db = fs(grid, "DP", 0, segments=A_), fs(grid, "DP", 0, segments=B_)
+            da, db = fs(grid, "DP", 0, segments=_cont(A_)), fs(grid, "DP", 0, segments=_cont(B_))
 
             def f_compl(ev, f, res):
                 v = ev.slp(da, dp0_coeffs(da, grid, f["pe"])) + ev.slp(db, dp0_coeffs(db, grid, f["pe"]))
@@ -620,17 +633,17 @@ def _build_variants(api, grid, D, labels, swap_set, sig, variants, res, mesh):
         else:
             res.notes.append(f"seg-compl skipped on {mesh['desc']}: vertices carried {np.bincount(carried).tolist()} times")
     if "seg-dp1" in variants:
-        sp1 = [(fs(grid, "DP", 1, segments=[l_]), fs(grid, "DP", 0, segments=[l_])) for l_ in labels]
+        sp1 = [(fs(grid, "DP", 1, segments=_cont([l_])), fs(grid, "DP", 0, segments=_cont([l_]))) for l_ in labels]
 
         def f_dp1(ev, f, res):
             return sum(ev.slp(d0, dp0_coeffs(d0, grid, f["pe"])) - ev.dlp(d1, p1_coeffs(d1, grid, f["uv"]))
                        for (d1, d0) in sp1)
         out["seg-dp1"] = f_dp1
     if "swapped-pieces" in variants:
-        sps = [(l_, fs(grid, "P", 1, segments=[l_], include_boundary_dofs=True, truncate_at_segment_edge=True,
-                       swapped_normals=swap_set),
-                fs(grid, "DP", 0, segments=[l_], swapped_normals=swap_set),
-                fs(grid, "DP", 0, segments=[l_])) for l_ in labels]
+        sps = [(l_, fs(grid, "P", 1, segments=_cont([l_]), include_boundary_dofs=True, truncate_at_segment_edge=True,
+                       swapped_normals=_cont(swap_set)),
+                fs(grid, "DP", 0, segments=_cont([l_]), swapped_normals=_cont(swap_set)),
+                fs(grid, "DP", 0, segments=_cont([l_]))) for l_ in labels]
 
         def f_swp(ev, f, res):
             tot = 0.0
@@ -646,13 +659,13 @@ def _build_variants(api, grid, D, labels, swap_set, sig, variants, res, mesh):
         out["swapped-pieces"] = f_swp
     if "swapped-all" in variants:
         alls = sorted(set(int(x) for x in D))
-        p1s = fs(grid, "P", 1, swapped_normals=alls)
-        d0s = fs(grid, "DP", 0, swapped_normals=alls)
+        p1s = fs(grid, "P", 1, swapped_normals=_cont(alls))
+        d0s = fs(grid, "DP", 0, swapped_normals=_cont(alls))
         # expected -u inside: return the negated value so that the common "expected" applies
         out["swapped-all"] = lambda ev, f, res: -(ev.slp(d0s, dp0_coeffs(d0s, grid, -f["pe"]))
                                                    - ev.dlp(p1s, p1_coeffs(p1s, grid, f["uv"])))
     if "swapped-dp1" in variants:
-        d1s = fs(grid, "DP", 1, swapped_normals=swap_set)
+        d1s = fs(grid, "DP", 1, swapped_normals=_cont(swap_set))
         out["swapped-dp1"] = lambda ev, f, res: (ev.slp(D0, dp0_coeffs(D0, grid, f["pe"]))
                                                  - ev.dlp(d1s, p1_coeffs(d1s, grid, f["uv"], weight=sig)))
     # side check: the spaces report the normal multipliers the relation above assumes
